@@ -203,48 +203,51 @@ theorem presented_honest (c : Crypto) (P : EncParams) (cph : Nat) (pk np : Bytes
       simpa [List.append_assoc] using this
 
 
-/-- The key `Decrypt` imports: a wrong-length result of `UnwrapKeyFn` is replaced by zero bytes. -/
-def effKey (P : EncParams) (k : Bytes) : Bytes := if k.length ≠ P.fkLen then List.replicate P.fkLen 0 else k
-
 /-- The cryptographic assumption, as a hypothesis **about one run** of `Decrypt` (source `r`,
     options `o`) against the honest document of `(fk, m, p)`:
-    * `header` — if the header this run reads verifies under the key this run unwraps, then that key
-      is the honest file key and the manifest carries the honest nonce prefix and cipher;
+    * `header` — if `UnwrapKeyFn` **succeeded** in this run (no error, a key of `fkLen` bytes) and the
+      header this run reads verifies under the key it returned, then that key is the honest file key and
+      the manifest carries the honest nonce prefix and cipher. Nothing is assumed about the all-zero key
+      `Decrypt` substitutes when the unwrap fails: that key is public, anyone can MAC a header under it
+      (`zero_key_forgery_witness`); the code has to refuse such runs by itself (`bad_unwrap_never_ok`);
     * `seg` — of the pieces this run presents to the AEAD, only honest segments at their own position
       and with their own finality flag open.
     Nothing is assumed about byte strings that do not occur in the run. -/
 structure NoForgery (c : Crypto) (cd : Codec) (P : EncParams) (fk : Bytes) (m : Manifest) (p : Bytes)
     (o : DecryptOpts) (r : Reader) : Prop where
   header : ∀ ml cl r' m' kn, readHeader P r = .ok (ml, cl, r') → cd.parse ml = some m' →
-    verifyHeader c cd P (effKey P (o.unwrap m' kn)) ml cl = none →
-    effKey P (o.unwrap m' kn) = fk ∧ m'.np = m.np ∧ m'.cph = m.cph
+    unwrapFailed true P o m' kn = false →
+    verifyHeader c cd P (o.unwrap m' kn) ml cl = none →
+    o.unwrap m' kn = fk ∧ m'.np = m.np ∧ m'.cph = m.cph
   seg : ∀ ml cl r', readHeader P r = .ok (ml, cl, r') →
     PresentedNoForgery c P m.cph (payloadKey c P fk m.np) m.np (segments P.segSize p)
       (confirmed (P.segSize + P.overhead) r' none) 0
 
 /-- Unfolding of `Decrypt` after a successful `readHeader`. -/
-theorem decryptWith_ok (b : Bool) (c : Crypto) (cd : Codec) (P : EncParams) (o : DecryptOpts) (r : Reader)
+theorem decryptWith_ok (b rf : Bool) (c : Crypto) (cd : Codec) (P : EncParams) (o : DecryptOpts) (r : Reader)
     (ml cl : Bytes) (r' : Reader) (h : readHeaderWith b P r = .ok (ml, cl, r')) :
-    decryptWith b c cd P o r =
+    decryptWith b rf c cd P o r =
       match cd.parse ml with
       | none => ([], .err .invalidManifest)
       | some m =>
         if !m.valid P then ([], .err .invalidManifest)
         else if (if o.keyName.isEmpty then m.keyName else o.keyName).isEmpty then ([], .err .keyMissing)
         else
-          match verifyHeader c cd P (effKey P (o.unwrap m (if o.keyName.isEmpty then m.keyName else o.keyName))) ml cl with
+          match verifyHeader c cd P (effKey rf P o m (if o.keyName.isEmpty then m.keyName else o.keyName)) ml cl with
           | some e => ([], .err e)
           | none =>
+            if rf && unwrapFailed rf P o m (if o.keyName.isEmpty then m.keyName else o.keyName) then ([], .err .signature)
+            else
             ((processSegments (P.segSize + P.overhead) P.maxSeg
-                (decryptSeg c P m.cph (payloadKey c P (effKey P (o.unwrap m (if o.keyName.isEmpty then m.keyName else o.keyName))) m.np) m.np) r').out,
+                (decryptSeg c P m.cph (payloadKey c P (effKey rf P o m (if o.keyName.isEmpty then m.keyName else o.keyName)) m.np) m.np) r').out,
              (processSegments (P.segSize + P.overhead) P.maxSeg
-                (decryptSeg c P m.cph (payloadKey c P (effKey P (o.unwrap m (if o.keyName.isEmpty then m.keyName else o.keyName))) m.np) m.np) r').term) := by
+                (decryptSeg c P m.cph (payloadKey c P (effKey rf P o m (if o.keyName.isEmpty then m.keyName else o.keyName)) m.np) m.np) r').term) := by
   unfold decryptWith
   rw [h]
   rfl
 
-theorem decryptWith_err (b : Bool) (c : Crypto) (cd : Codec) (P : EncParams) (o : DecryptOpts) (r : Reader)
-    (e : Err) (h : readHeaderWith b P r = .error e) : decryptWith b c cd P o r = ([], .err e) := by
+theorem decryptWith_err (b rf : Bool) (c : Crypto) (cd : Codec) (P : EncParams) (o : DecryptOpts) (r : Reader)
+    (e : Err) (h : readHeaderWith b P r = .error e) : decryptWith b rf c cd P o r = ([], .err e) := by
   unfold decryptWith
   rw [h]
 
